@@ -141,7 +141,7 @@ pub const OUTSIDE_AFTER_SECS: u64 = 8;
 pub static SLEEPY_TIMERS: std::sync::atomic::AtomicBool = std::sync::atomic::AtomicBool::new(false);
 
 pub fn run(script: &[Line], prefix: &[usize], horizon: usize) -> Exec {
-    *lock() = Some(Sched { active: true, record_events: true, ..Default::default() });
+    *lock() = Some(Sched { active: true, record_events: true, epoch: NEXT_EPOCH.fetch_add(1, std::sync::atomic::Ordering::Relaxed), ..Default::default() });
     let main = std::thread::Builder::new()
         .stack_size(64 << 20)
         .spawn(|| {
@@ -161,6 +161,8 @@ pub fn run(script: &[Line], prefix: &[usize], horizon: usize) -> Exec {
     let mut unwinding = false;
     let mut asleep: Vec<bool> = vec![];
     let mut outside_marks = 0usize;
+    let mut idle_polls = 0usize;
+    let mut asleep_polls = 0usize;
     loop {
         let mut g = lock();
         // wait for quiescence: nobody holds the baton, no thread about to be born, everyone parked or finished
@@ -171,20 +173,37 @@ pub fn run(script: &[Line], prefix: &[usize], horizon: usize) -> Exec {
                 break;
             }
             let events_before = s.events.len();
-            let (g2, to) = CV.wait_timeout(g, std::time::Duration::from_secs(OUTSIDE_AFTER_SECS)).unwrap_or_else(|e| e.into_inner());
+            let (g2, to) = CV.wait_timeout(g, std::time::Duration::from_millis(50)).unwrap_or_else(|e| e.into_inner());
             g = g2;
-            if to.timed_out() {
-                // nothing happened for a long time: the thread holding the baton is blocked in (or busy with) something
-                // the hooks do not see. Waiting for it for ever would hang the explorer; a real engine's other threads
-                // keep running while one of them blocks, so the controller marks it and schedules the others.
-                let s = g.as_mut().unwrap();
-                if s.events.len() == events_before {
-                    if let Some(i) = s.current {
-                        if i < s.threads.len() && !s.threads[i].finished && s.threads[i].park.is_none() {
-                            s.threads[i].outside = true;
-                            s.current = None;
-                            outside_marks += 1;
-                        }
+            if !to.timed_out() {
+                idle_polls = 0;
+                asleep_polls = 0;
+                continue;
+            }
+            // Nothing reached a schedule point for 50 ms. If the thread holding the baton is asleep in the kernel for
+            // several polls in a row (or nothing at all happens for OUTSIDE_AFTER_SECS), it is blocked in - or busy with -
+            // something the hooks do not see: an un-hooked join, lock or channel wait. Waiting for it for ever would hang
+            // the explorer; in a real engine the other threads keep running while one of them blocks, so the controller
+            // marks it (`outside`) and schedules the others. The mark is cleared when the thread reaches its next point.
+            let s = g.as_mut().unwrap();
+            if s.events.len() != events_before {
+                idle_polls = 0;
+                asleep_polls = 0;
+                continue;
+            }
+            idle_polls += 1;
+            if let Some(i) = s.current {
+                if i < s.threads.len() && !s.threads[i].finished && s.threads[i].park.is_none() {
+                    match os_thread_state(s.threads[i].tid) {
+                        Some('S') | Some('D') => asleep_polls += 1,
+                        _ => asleep_polls = 0,
+                    }
+                    if asleep_polls >= 6 || idle_polls as u64 >= OUTSIDE_AFTER_SECS * 20 {
+                        s.threads[i].outside = true;
+                        s.current = None;
+                        outside_marks += 1;
+                        idle_polls = 0;
+                        asleep_polls = 0;
                     }
                 }
             }
